@@ -163,7 +163,13 @@ class HashTable:
             raise ValueError(
                 f"Could not add hash tables with differing keys ({self._keys, other._keys})"
             )
-        return HashTable(self._keys, self._values + other._values)
+        # a constant is stored as a plain Python number: the declared value dtypes decide the
+        # dtype of the sum (a float table of zeros plus an integer table is a float table)
+        value_dtype = np.result_type(self._value_dtype, other._value_dtype)
+        values = self._values + other._values
+        if not isinstance(values, Number):
+            values = values.astype(value_dtype)
+        return HashTable(self._keys, values, value_dtype=value_dtype)
 
     def __iadd__(self, other):
         if isinstance(other, Number):
